@@ -421,7 +421,7 @@ func (u *Unit) assignSet() map[string]bool {
 	for _, item := range u.spec.Assigns {
 		if strings.HasPrefix(item, "mapobj(") && strings.HasSuffix(item, ")") && u.entrySt != nil {
 			if ex, err := ParseSpecExpr(item[7 : len(item)-1]); err == nil {
-				env := &SpecEnv{u: u, st: u.entrySt, old: u.entrySt, names: map[string]SVal{}}
+				env := &SpecEnv{u: u, st: u.entrySt, old: u.entrySt, names: map[string]SVal{}, fn: u.fn}
 				u.bindParams(env, u.spec, u.fn, u.fn.Signature, u.params, nil)
 				if mv, err := env.eval(ex); err == nil && mv.T != nil {
 					if mt, ok := mv.T.Underlying().(*types.Map); ok {
@@ -702,7 +702,7 @@ func (fr *Frame) buildCandidates(li *loopInfo, phiEntry map[*ssa.Phi]Value) []*C
 			_ = mentionsHdr
 			u.placedInv[inv.Text] = true
 			add(inv.Text, false, func(fr *Frame, st *State, phi map[*ssa.Phi]Value, hyp bool) (Term, error) {
-				env := &SpecEnv{u: u, st: st, old: u.entrySt, names: fr.invNames(li, st, phi)}
+				env := &SpecEnv{u: u, st: st, old: u.entrySt, names: fr.invNames(li, st, phi), fn: u.fn}
 				if hyp {
 					return env.evalHyp(inv.E)
 				}
